@@ -15,16 +15,16 @@ def level_ok(keypred, name):
 
 
 def run(prog, chk):
-    insert_table(prog, chk)
-    reset_table(prog, chk)
-    prepend_table(prog, chk)
-    close_table(prog, chk)
-    process_table(prog, chk)
-    addleaf_table(prog, chk)
-    close_and_sign_table(prog, chk)
+    chk.defer(insert_table, prog, chk)
+    chk.defer(reset_table, prog, chk)
+    chk.defer(prepend_table, prog, chk)
+    chk.defer(close_table, prog, chk)
+    chk.defer(process_table, prog, chk)
+    chk.defer(addleaf_table, prog, chk)
+    chk.defer(close_and_sign_table, prog, chk)
     from .C09 import work_buffer_rule
     work_buffer_rule(prog, chk, rule="C16.workbuf")     # a metadata leaf accepted into the tree must be serializable where its proof is extracted
-    _run(prog, chk)
+    chk.defer(_run, prog, chk)
 
 
 def _run(prog, chk):
